@@ -296,7 +296,7 @@ int worker_main(int argc, char **argv, Machine &m) {
       unsigned long long seed; char prop[32], tier[32];
       if (sscanf(line, "RUN %llu %31s %31s", &seed, prop, tier) != 3) continue;
       Plan p = m.gen(seed, prop, tier, pclass);
-      int bad = do_run(m, p, false, ws, leakcheck && leak_every <= 1);
+      int bad = do_run(m, p, getenv("HWSIM_EVLOG") != nullptr, ws, leakcheck && leak_every <= 1);
       if (bad) { printf("RECYCLE\n"); fflush(stdout); return 0; }  // state after a violated/cut run is not trusted
       since.push_back(seed);
       if (since.size() >= leak_every) batch_check();
